@@ -7,11 +7,11 @@ CONSTANTS
   Dev_InternalActivityKeepsIdleFlag = FALSE
   Dev_IdleIgnoresMailbox = FALSE
   Dev_CancelBypassesLock = FALSE
-  Dev_SendSkipsLockWhenLoaded = FALSE
+  Dev_SendSkipsLockWhenLoaded = TRUE
   WithCancel = FALSE
 INIT Init
 NEXT Next
-CONSTRAINT Bound
+CONSTRAINT BoundQuick
 INVARIANT TypeOK
 
 INVARIANT Inv_ActiveHasLoop
